@@ -9,6 +9,7 @@ use crate::ir;
 use crate::runner::{Check, Outcome, Tier, hash64};
 use crate::safe_print::{self, Style};
 use anthem::syntax_tree::asp::mini_gringo as asp;
+use anthem::syntax_tree::fol::sigma_0 as fol;
 use anthem::translating::formula_representation::mu::Mu as _;
 use anthem::translating::formula_representation::natural::Natural as _;
 use anthem::translating::formula_representation::tau_star::TauStar as _;
@@ -54,7 +55,7 @@ impl Check for C08 {
             .boxed()
     }
     fn rule(&self) -> String {
-        "random program of 1-3 rules mixing regular and irregular shapes (variables inside and outside arithmetic, intervals in heads / right of = / elsewhere, symbols and #inf/#sup next to arithmetic, choice heads with intervals, variables named N0 N1 N0_0) x an interpretation (H subset-of T) that is random (extents contain symbols, #inf and #sup at every argument position) or guided (T = closure of the program over random atoms, usually minus one atom; H = T or T minus one atom); oracle: mu() never panics and each of its formulas has the same exact HT truth value as the tau* formula of the same rule; each rule alone, if natural() accepts it, likewise (and agrees with the reference semantics of the rule); non-trivial = the rule is accepted by natural, fires in T and the verdicts are definite; labels = regular/irregular, operator classes".into()
+        "random program of 1-3 rules mixing regular and irregular shapes (variables inside and outside arithmetic, intervals in heads / right of = / elsewhere, symbols and #inf/#sup next to arithmetic, choice heads with intervals, variables named N0 N1 N0_0) x an interpretation (H subset-of T) that is random (extents contain symbols, #inf and #sup at every argument position) or guided (T = closure of the program over random atoms, usually minus one atom; H = T or T minus one atom); oracle: mu() never panics and each of its formulas has the same exact HT truth value as the tau* formula of the same rule; each rule alone, if natural() accepts it, likewise (and agrees with the reference semantics of the rule); the printed mu / natural theory (what `translate` shows) reads back as the translation; non-trivial = the rule is accepted by natural, fires in T and the verdicts are definite; labels = regular/irregular, operator classes".into()
     }
     fn run(&self, case: &Case) -> Outcome {
         if case.program.rules.is_empty() {
@@ -64,6 +65,24 @@ impl Check for C08 {
         let mu = case.program.clone().mu();
         if mu.formulas.len() != tau.formulas.len() {
             return Outcome::fail("formula-count", "C08: mu and tau* differ in the number of formulas".to_string());
+        }
+        // what `translate --with mu|natural` shows is the printed theory: it has to denote the translation
+        for (name, th) in [("mu", Some(mu.clone())), ("natural", case.program.clone().natural())] {
+            let Some(th) = th else { continue };
+            match th.to_string().parse::<fol::Theory>() {
+                Ok(back) if back == th => {}
+                other => {
+                    return Outcome::fail(
+                        format!("printed-{name}-differs"),
+                        format!(
+                            "C08: the printed {name} translation does not read back as the translation\n  program: {}\n  as printed: {th}\n  own printer: {}\n  read back: {}",
+                            safe_print::asp_program(&case.program, &Style::plain()),
+                            safe_print::theory(&th, &Style::plain()),
+                            other.map(|b| safe_print::theory(&b, &Style::plain())).unwrap_or_else(|e| format!("rejected: {e}"))
+                        ),
+                    );
+                }
+            }
         }
         let pool = program_pool(&case.program);
         let preds = program_preds(&case.program);
